@@ -39,6 +39,7 @@ static void pad_case(size_t len, size_t bs, size_t cap, int use_p, int pat)
     memset(work + len, 0xEE, need - len);
     memcpy(orig, work, need);
     n_eval++; n_nontriv++;
+    if (len == 16 && (bs == 16 || bs == 7) && (cap == padded || cap + 1 == padded)) VF_SAMPLE_CASE(4, "sodium_pad(len=%zu, blocksize=%zu, capacity=%zu): model says %s, padded length %zu", len, bs, cap, want == 0 ? "success" : "refused, buffer untouched", padded);
     r = sodium_pad(use_p ? &got : NULL, work, len, bs, cap);
     snprintf(key, sizeof key, "sodium_pad/len=%zu/bs=%zu/cap=%zu/p=%d", len, bs, cap, use_p);
     if (r != want) { vf_fail(key, "returned %d, model says %d (padded=%zu)", r, want, padded); return; }
